@@ -3,6 +3,7 @@ package main
 // cfgq.go: instruction-granular control-flow queries on SSA functions.
 
 import (
+	"go/constant"
 	"fmt"
 	"go/token"
 	"go/types"
@@ -48,19 +49,58 @@ type reachQ struct {
 	Target  func(ssa.Instruction) bool
 	Block   func(ssa.Instruction) bool
 	NoEdges map[Edge]bool
+	// TargetF, when set, is asked instead of Target and may consult what
+	// the path knows (nil-ness, constants) about the values the
+	// instruction uses.
+	TargetF func(ssa.Instruction, nilFacts) bool
 }
 
-// nilFacts records what a path knows about interface/pointer values:
-// 1 = nil, 2 = not nil.
-type nilFacts map[ssa.Value]int8
+// nilFacts records what a path knows about values: for interface/pointer
+// values 1 = nil, 2 = not nil; for values which are a constant on this path
+// (a flag or state variable merged from constants), the constant.
+type nilFacts map[ssa.Value]pathFact
+
+type pathFact struct {
+	n int8   /* nil-ness */
+	c string /* "" or the constant, as kind:exact-string */
+}
 
 func (f nilFacts) with(v ssa.Value, k int8) nilFacts {
 	n := nilFacts{}
 	for a, b := range f {
 		n[a] = b
 	}
-	n[v] = k
+	n[v] = pathFact{n: k}
 	return n
+}
+
+func (f nilFacts) withConst(v ssa.Value, c string) nilFacts {
+	n := nilFacts{}
+	for a, b := range f {
+		n[a] = b
+	}
+	n[v] = pathFact{c: c}
+	return n
+}
+
+// constKey: a comparable rendering of a (non-nil) constant.
+func constKey(c *ssa.Const) string {
+	if nil == c || nil == c.Value {
+		return ""
+	}
+	switch c.Value.Kind() {
+	case constant.Bool, constant.Int, constant.String:
+		return fmt.Sprintf("%d:%s", c.Value.Kind(), c.Value.ExactString())
+	}
+	return ""
+}
+
+// constOf: the constant v is known to be on this path, if any.
+func pathConstOf(v ssa.Value, f nilFacts) string {
+	if c, ok := v.(*ssa.Const); ok {
+		return constKey(c)
+	}
+	return f[v].c
 }
 
 func (f nilFacts) key() string {
@@ -69,7 +109,7 @@ func (f nilFacts) key() string {
 	}
 	var ks []string
 	for v, k := range f {
-		ks = append(ks, fmt.Sprintf("%p:%d", v, k))
+		ks = append(ks, fmt.Sprintf("%p:%d:%s", v, k.n, k.c))
 	}
 	sort.Strings(ks)
 	return strings.Join(ks, ",")
@@ -77,8 +117,8 @@ func (f nilFacts) key() string {
 
 // nilnessOf: what is known about v by itself or from the facts.
 func nilnessOf(v ssa.Value, f nilFacts) int8 {
-	if k, ok := f[v]; ok {
-		return k
+	if k, ok := f[v]; ok && 0 != k.n {
+		return k.n
 	}
 	switch x := v.(type) {
 	case *ssa.Const:
@@ -110,6 +150,7 @@ func enterBlock(prev, b *ssa.BasicBlock, in nilFacts) nilFacts {
 		}
 	}
 	var ks []int8
+	var cs []string
 	var phis []*ssa.Phi
 	for _, i := range b.Instrs {
 		ph, ok := i.(*ssa.Phi)
@@ -117,11 +158,14 @@ func enterBlock(prev, b *ssa.BasicBlock, in nilFacts) nilFacts {
 			break
 		}
 		k := int8(0)
+		c := ""
 		if 0 <= edge && edge < len(ph.Edges) {
 			k = nilnessOf(ph.Edges[edge], in)
+			c = pathConstOf(ph.Edges[edge], in)
 		}
 		phis = append(phis, ph)
 		ks = append(ks, k)
+		cs = append(cs, c)
 	}
 	drop := func(v ssa.Value) {
 		if _, had := facts[v]; had {
@@ -137,6 +181,8 @@ func enterBlock(prev, b *ssa.BasicBlock, in nilFacts) nilFacts {
 	for n, ph := range phis {
 		if 0 != ks[n] {
 			facts = facts.with(ph, ks[n])
+		} else if "" != cs[n] {
+			facts = facts.withConst(ph, cs[n])
 		}
 	}
 	return facts
@@ -187,7 +233,11 @@ func (q reachQ) run() ssa.Instruction {
 				blocked = true
 				break
 			}
-			if nil != q.Target && q.Target(in) {
+			if nil != q.TargetF {
+				if q.TargetF(in, facts) {
+					return in
+				}
+			} else if nil != q.Target && q.Target(in) {
 				return in
 			}
 			if isNoReturn(in) {
@@ -204,7 +254,27 @@ func (q reachQ) run() ssa.Instruction {
 		ifi := blockIf(it.b)
 		decided := false
 		if nil != ifi && 2 == len(it.b.Succs) && it.b.Succs[0] != it.b.Succs[1] {
-			if c := decodeCond(ifi.Cond); nil != c.Y && isNilConst(c.Y) {
+			/* A flag or state variable which is a known constant on this
+			path, compared with a constant (or tested, if boolean). */
+			if c := decodeCond(ifi.Cond); !decided {
+				var lhs, rhs string
+				switch {
+				case nil == c.Y:
+					lhs, rhs = pathConstOf(c.X, facts), fmt.Sprintf("%d:true", constant.Bool)
+				case !isNilConst(c.Y):
+					lhs, rhs = pathConstOf(c.X, facts), pathConstOf(c.Y, facts)
+				}
+				if "" != lhs && "" != rhs {
+					holds := lhs == rhs
+					succ := 1
+					if holds == c.Eq {
+						succ = 0
+					}
+					outs = append(outs, item{it.b.Succs[succ], 0, it.b, facts})
+					decided = true
+				}
+			}
+			if c := decodeCond(ifi.Cond); !decided && nil != c.Y && isNilConst(c.Y) {
 				nilSucc := 1
 				if c.Eq {
 					nilSucc = 0
@@ -219,6 +289,21 @@ func (q reachQ) run() ssa.Instruction {
 				default:
 					outs = append(outs, item{it.b.Succs[nilSucc], 0, it.b, facts.with(c.X, 1)}, item{it.b.Succs[1-nilSucc], 0, it.b, facts.with(c.X, 2)})
 					decided = true
+				}
+			}
+		}
+		if !decided && nil != ifi && 2 == len(it.b.Succs) && it.b.Succs[0] != it.b.Succs[1] {
+			/* x == constant: on that edge x is that constant. */
+			if c := decodeCond(ifi.Cond); nil != c.Y {
+				if yc, isC := c.Y.(*ssa.Const); isC && "" != constKey(yc) {
+					if _, xIsC := c.X.(*ssa.Const); !xIsC {
+						eq := 1
+						if c.Eq {
+							eq = 0
+						}
+						outs = append(outs, item{it.b.Succs[eq], 0, it.b, facts.withConst(c.X, constKey(yc))}, item{it.b.Succs[1-eq], 0, it.b, facts})
+						decided = true
+					}
 				}
 			}
 		}
